@@ -231,13 +231,20 @@ def gen_embedding(rng):
     return {'stype': 'embedding', 'family': fam, 'cells': cells}
 
 
-GENS = {'numerical': gen_numerical, 'sequence_numerical': gen_sequence, 'categorical': gen_categorical,
+def gen_text_embedded(rng):
+    n = rng.randint(1, 6)
+    cells = [None if rng.random() < .15 else rng.choice(['some text', 'more', '', 'x y z']) for _ in range(n)]
+    return {'stype': 'text_embedded', 'family': 'stub_embedder', 'dtype': rng.choice(['object', 'str']), 'cells': cells,
+            'width': rng.randint(1, 6)}
+
+
+GENS = {'text_embedded': gen_text_embedded, 'numerical': gen_numerical, 'sequence_numerical': gen_sequence, 'categorical': gen_categorical,
         'multicategorical': gen_multicategorical, 'timestamp': gen_timestamp, 'embedding': gen_embedding}
 ORDER = ['numerical', 'categorical', 'multicategorical', 'sequence_numerical', 'timestamp', 'embedding']
 
 
 def gen_case(rng):
-    st = rng.choice(ORDER)
+    st = rng.choice(ORDER) if rng.random() > .04 else 'text_embedded'
     case = GENS[st](rng)
     n = len(case['cells'])
     case['index'] = _idx(rng, n)
@@ -336,6 +343,8 @@ def render(case):
                             dtype=object, index=idx)
     elif st == 'embedding':
         ser = pd.Series([None if c is None else [float(x) for x in c] for c in cells], dtype=object, index=idx)
+    elif st == 'text_embedded':
+        ser = pd.Series(list(cells), dtype='str' if case['dtype'] == 'str' else object, index=idx)
     else:
         raise ValueError(st)
     return ser, getattr(torch_frame.stype, st), sep, fmt
@@ -394,6 +403,11 @@ def canon_stats(stats, stype_name, exact_order=False):
                 'keys': sorted(k.name for k in stats)}
     if stype_name == 'embedding':
         return {'dim': int(stats[StatType.EMB_DIM]), 'keys': sorted(k.name for k in stats)}
+    if stype_name == 'text_embedded':
+        d = {'keys': sorted(k.name for k in stats)}
+        if StatType.EMB_DIM in stats:
+            d['dim'] = int(stats[StatType.EMB_DIM])
+        return d
     raise ValueError(stype_name)
 
 
@@ -431,7 +445,13 @@ def run_real(case):
         out['input_unchanged'] = bool(same)
         if case['mode'] in ('dataset', 'target'):
             try:
-                if case['mode'] == 'dataset':
+                if st == 'text_embedded':
+                    import torch
+                    from torch_frame.config.text_embedder import TextEmbedderConfig
+                    w = case['width']
+                    cfg = TextEmbedderConfig(text_embedder=lambda xs: torch.ones(len(xs), w), batch_size=None)
+                    ds = Dataset(pd.DataFrame({'c': ser}), {'c': stype}, col_to_text_embedder_cfg=cfg)
+                elif case['mode'] == 'dataset':
                     df = pd.DataFrame({'c': ser})
                     ds = Dataset(df, {'c': stype}, col_to_sep=sep, col_to_time_format=fmt)
                 else:
@@ -439,7 +459,7 @@ def run_real(case):
                     ds = Dataset(df, {'c': stype, 'f': torch_frame.numerical}, target_col='c')
                 ds.materialize()
                 stats = ds.col_stats['c']
-                two = case['mode'] == 'target' and len(stats[list(stats)[0]][0]) == 2
+                two = case['mode'] == 'target' and st == 'categorical' and len(stats[list(stats)[0]][0]) == 2
                 out['dataset'] = canon_stats(stats, st, exact_order=two)
                 tf = ds.tensor_frame
                 if st == 'categorical':
@@ -570,6 +590,10 @@ def oracle(case, real):
             exp = ws[0] if ws else -1
             if got['dim'] != exp:
                 return (f'{st}/dim', 'EMB_DIM differs from the vector width', exp, got['dim'])
+        elif st == 'text_embedded':
+            exp = {'keys': []} if where == 'direct' else {'keys': ['EMB_DIM'], 'dim': case['width']}
+            if got != exp:
+                return (f'{st}/dim', 'EMB_DIM of a text_embedded column is not the width of its embeddings', exp, got)
     # bridge: the i-th listed category is the one encoded as index i
     if real.get('bridge') is not None and real.get('obs_ds') is not None:
         cats = real['obs_ds'][0]
